@@ -14,6 +14,7 @@ compared with the extracted model and with the property's own statement (oracle)
 import importlib.util  # noqa: F401
 import contextlib
 import hashlib
+import io
 import itertools
 import json
 import math
@@ -30,8 +31,8 @@ META = {
     "id": "C16",
     "level": "proof",
     "technique": "Coq theorems over an exact-rational model of draw/reset_momentum/kinetic_energy/modify_velocities (algebra by ring/field, unit constants by vm_compute on constants regenerated from the sources) + lock-step of the extracted model vs the real engine classes with a recording random generator",
-    "text": "Unbounded theorems over Q: m*v^2 = kT*z^2 for every drawn component (so zero mean and <m v^2> = kT are inherited from the unit normal stream) for every engine's beta = 1/(kb*T), LAMMPS after its velocity scale and ASE's momentum draw included; lifted to the whole operation (C16_modify_variance*: every component of every atom of the velocities written by modify_velocities, momentum reset off) and to the reported kinetic energy (C16_modify_equipartition*: kin_new = (1/2) kT sum z^2 in the engine's unit); per-engine SI statements (C16_temperature_si_*: kg * (m/s)^2 of a written component = k_B(SI) T z^2 within 1e-6, CP2K 2e-6) over the constants regenerated from the sources; zero total momentum and a uniform shift after reset_momentum / Stationary; dek = kin_new - kin_old with kin_new the kinetic energy of the written velocities; positions, box, identities and every file except conf.*/genvel.* untouched; the result is a function of the first npart*dim stream values. Closed numeric lemmas tie each engine's constants (kb, LAMMPS scale, CP2K mass factor, as exact rationals of the float literals in the sources) to the SI values. The model is tied to /repo by running the real prepare_shooting_point/modify_velocities of all five engine classes on generated inputs with prescribed draws and comparing files and return values with the extracted model, and by evaluating the statement itself (including an SI-unit temperature check independent of the engines' constants) on the implementation's output.",
-    "note": "All theorems print 'Closed under the global context' (Q only, no real-number axioms, no Interval). Trusted: Coq kernel; extraction (ExtrOcamlBasic) + ocaml/util.ml + ocaml/c16_driver.ml; py/checks/c16.py (input writers, file parsers, recorder, tolerances); py/params_c16.py; the SI constants written in VelM.v / c16.py (2019 SI, CODATA 2018). Not modelled: floating-point rounding (model is exact; comparisons within 1e-9 relative plus the 9-decimal file format quantum), the square root (sigma is captured from the implementation and sigma^2*m*beta = 1 is checked exactly on it to 1e-12), the Gaussian law of numpy's normal(), ASE internals (thermalize_momenta/Stationary are modelled from their source and tied by the lock-step), velocities generated by the external GROMACS program. The variance theorem concerns the draw; with zero_momentum the per-atom variance is reduced by the centre-of-mass part (C16_reset_kinetic quantifies it). CP2K's kb literal is 1.2e-6 away from the 2019 SI value, so its unit lemmas are shown to 2e-6 instead of 1e-6 (no lower bound is asserted: correcting the literal breaks nothing). Lead L5 (ASE draws from numpy's global generator, not engine.rgen) is recorded under C07; this check handles both sources and lists the one in use under coverage.draw_source_per_engine.",
+    "text": "Unbounded theorems over Q: m*v^2 = kT*z^2 for every drawn component (so zero mean and <m v^2> = kT are inherited from the unit normal stream) for every engine's beta = 1/(kb*T), LAMMPS after its velocity scale and ASE's momentum draw included; lifted to the whole operation (C16_modify_variance*: every component of every atom of the velocities written by modify_velocities, momentum reset off) and to the reported kinetic energy (C16_modify_equipartition*: kin_new = (1/2) kT sum z^2 in the engine's unit); per-engine SI statements (C16_temperature_si_*: kg * (m/s)^2 of a written component = k_B(SI) T z^2 within 1e-6, CP2K 2e-6) over the constants regenerated from the sources; zero total momentum and a uniform shift after reset_momentum / Stationary; dek = kin_new - kin_old with kin_new the kinetic energy of the written velocities; positions, box, identities and every file except conf.*/genvel.* untouched; the result is a function of the first npart*dim stream values; source FILES whose optional entries are absent (no VELOCITY block in a .g96 frame, no velocity columns / no 'Box:' entry in an xyz snapshot: VelM.cfile has them as options, the readers' defaults are modelled) -- C16_file_written_is_modify_std: with the special case of GromacsEngine.modify_velocities in place the written genvel file is exactly modify_std of the frame as read, for every engine and every such file, so all theorems above carry over; C16_file_kin_new_is_written: one velocity line per atom, kin_new is the kinetic energy of the written lines; C16_file_no_velocities_kin_old: kin_old = 0 and dek infinite for a source without velocities (GROMACS: the stored system.ekin); C16_gromacs_no_velocity_block_special_case_needed: with a test that never fires the velocity block is empty while kin_new is non-zero (refutation witness). Closed numeric lemmas tie each engine's constants (kb, LAMMPS scale, CP2K mass factor, as exact rationals of the float literals in the sources) to the SI values. The model is tied to /repo by running the real prepare_shooting_point/modify_velocities of all five engine classes on generated inputs with prescribed draws and comparing files and return values with the extracted model, and by evaluating the statement itself (including an SI-unit temperature check independent of the engines' constants) on the implementation's output. Source frames of every set-up include, next to moving frames and a frame at rest, frames whose file has no velocities (GROMACS .g96 without VELOCITY block, TurtleMD/CP2K xyz without velocity columns, ASE Atoms without momenta) and, for the xyz engines, no 'Box:' entry (with and without velocities); the oracle reads the written genvel file back with its own parser: number of velocity entries = number of atoms, kinetic energy of the written velocities = reported kin_new, dek = kin_new - kin_old with kin_old the kinetic energy of the source frame as read (infinite when that is zero, i.e. also for a frame without velocities; GROMACS: the stored ekin), box = the file's, or the CP2K template's / none (TurtleMD) where the file has none.",
+    "note": "All theorems print 'Closed under the global context' (Q only, no real-number axioms, no Interval). Trusted: Coq kernel; extraction (ExtrOcamlBasic) + ocaml/util.ml + ocaml/c16_driver.ml; py/checks/c16.py (input writers, file parsers, recorder, tolerances); py/params_c16.py; the SI constants written in VelM.v / c16.py (2019 SI, CODATA 2018). Not modelled: floating-point rounding (model is exact; comparisons within 1e-9 relative plus the 9-decimal file format quantum), the square root (sigma is captured from the implementation and sigma^2*m*beta = 1 is checked exactly on it to 1e-12), the Gaussian law of numpy's normal(), ASE internals (thermalize_momenta/Stationary are modelled from their source and tied by the lock-step), velocities generated by the external GROMACS program. Frames without velocities: lammpstrj has no optional entries and a .g96 frame keeps its BOX block, so LAMMPS has no such input and GROMACS only the missing VELOCITY block; TurtleMD and CP2K extract the shooting frame with _extract_frame first, which writes zero velocity columns, so for them the velocity-less file is seen by the reader of the extraction, not by modify_velocities itself; these and the GROMACS cases are compared with the file-level model VelM.modify_file (special case on). The variance theorem concerns the draw; with zero_momentum the per-atom variance is reduced by the centre-of-mass part (C16_reset_kinetic quantifies it). CP2K's kb literal is 1.2e-6 away from the 2019 SI value, so its unit lemmas are shown to 2e-6 instead of 1e-6 (no lower bound is asserted: correcting the literal breaks nothing). Lead L5 (ASE draws from numpy's global generator, not engine.rgen) is recorded under C07; this check handles both sources and lists the one in use under coverage.draw_source_per_engine.",
     "design_ref": "4/C16",
 }
 LEVEL = "proof"
@@ -342,7 +343,8 @@ class Kit:
             for fr_ in frames:
                 at = Atoms(numbers=[ASE_NUMBERS[x] for x in names], positions=fr_["pos"], cell=list(fr_["box"]), pbc=True)
                 at.set_masses(setup["masses"])
-                at.set_velocities(np.array(fr_["vel"], dtype=float))
+                if fr_["vel"] is not None:      # None: Atoms without momenta
+                    at.set_velocities(np.array(fr_["vel"], dtype=float))
                 tr.write(at)
             tr.close()
             return [(fn, i) for i in range(len(frames))], [fn]
@@ -357,14 +359,15 @@ class Kit:
             n = int(lines[0])
             hdr = lines[1]
             box = [float(x) for x in hdr.lower().split("box:")[1].split()] if "box:" in hdr.lower() else None
-            labels, pos, vel = [], [], []
+            labels, pos, vel, nvel = [], [], [], 0
             for ln in lines[2:2 + n]:
                 t = ln.split()
                 labels.append(t[0])
                 pos.append([float(x) for x in t[1:4]])
-                vel.append([float(x) for x in t[4:7]])
+                nvel += len(t) >= 7
+                vel.append([float(x) for x in t[4:7]] if len(t) >= 7 else [0.0, 0.0, 0.0])
             assert [x for x in lines[2 + n:] if x.strip()] == [], "trailing data in xyz"
-            return {"labels": labels, "pos": pos, "vel": vel, "box": box}
+            return {"labels": labels, "pos": pos, "vel": vel, "box": box, "nvel": nvel}
         if k == "lammps":
             with open(fn) as f:
                 lines = f.read().split("\n")
@@ -373,7 +376,8 @@ class Kit:
             rows = [ln.split() for ln in lines[9:9 + n]]
             assert [x for x in lines[9 + n:] if x.strip()] == [], "trailing data in lammpstrj"
             return {"labels": [f"{r[0]}:{r[1]}" for r in rows], "pos": [[float(x) for x in r[2:5]] for r in rows],
-                    "vel": [[float(x) for x in r[5:8]] for r in rows], "box": [b[1] - b[0] for b in box], "boxraw": box}
+                    "vel": [[float(x) for x in r[5:8]] if len(r) >= 8 else [0.0, 0.0, 0.0] for r in rows],
+                    "nvel": sum(len(r) >= 8 for r in rows), "box": [b[1] - b[0] for b in box], "boxraw": box}
         if k == "gromacs":
             sec, cur = {}, None
             with open(fn) as f:
@@ -388,9 +392,13 @@ class Kit:
                         sec[cur].append(ln)
             def nums(ln):
                 return [float(ln[24 + 15 * i:24 + 15 * (i + 1)]) for i in range(3)]
-            return {"labels": [ln[:24] for ln in sec["POSITION"]], "vlabels": [ln[:24] for ln in sec.get("VELOCITY", [])],
-                    "pos": [nums(ln) for ln in sec["POSITION"]], "vel": [nums(ln) for ln in sec.get("VELOCITY", [])],
-                    "box": [float(x) for x in sec["BOX"][0].split()], "title": sec.get("TITLE")}
+            vlines = sec.get("VELOCITY", [])
+            npos = len(sec["POSITION"])
+            # a missing VELOCITY line reads back as zero velocity (read_gromos96_file)
+            return {"labels": [ln[:24] for ln in sec["POSITION"]], "vlabels": [ln[:24] for ln in vlines],
+                    "pos": [nums(ln) for ln in sec["POSITION"]],
+                    "vel": [nums(ln) for ln in vlines[:npos]] + [[0.0, 0.0, 0.0]] * max(0, npos - len(vlines)),
+                    "nvel": len(vlines), "box": [float(x) for x in sec["BOX"][0].split()], "title": sec.get("TITLE")}
         if k == "ase":
             from ase.io import read
             at = read(fn)
@@ -398,6 +406,7 @@ class Kit:
                 at = at[0]
             return {"labels": [f"{z}:{m!r}" for z, m in zip(at.numbers.tolist(), at.get_masses().tolist())],
                     "pos": at.positions.tolist(), "vel": at.get_velocities().tolist(),
+                    "nvel": len(at.arrays["momenta"]) if "momenta" in at.arrays else 0,
                     "box": at.cell.diagonal().tolist(), "cell": at.cell[:].tolist(), "pbc": at.pbc.tolist()}
         raise ValueError(k)
 
@@ -415,9 +424,11 @@ class Kit:
 
 
 def xyz_frame(names, pos, vel, box):
-    out = [f"{len(names)}", "# Box: " + " ".join(f"{float(b):9.4f}" for b in box)]
-    for nm, p, v in zip(names, pos, vel):
-        out.append(f"{nm:5s} " + " ".join(f"{float(x):15.9f}" for x in list(p) + list(v)))
+    """One xyz snapshot.  Both optional entries of the format can be absent: `box=None` gives a
+    comment line without "Box:", `vel=None` lines without velocity columns."""
+    out = [f"{len(names)}", "# generated for C16" if box is None else "# Box: " + " ".join(f"{float(b):9.4f}" for b in box)]
+    for i, (nm, p) in enumerate(zip(names, pos)):
+        out.append(f"{nm:5s} " + " ".join(f"{float(x):15.9f}" for x in list(p) + (list(vel[i]) if vel is not None else [])))
     return "\n".join(out) + "\n"
 
 
@@ -429,10 +440,13 @@ def g96_frame(names, pos, vel, box):
     out = ["TITLE", "generated for C16", "END", "POSITION"]
     for i, (nm, p) in enumerate(zip(names, pos)):
         out.append(g96_label(i, nm) + "".join(f"{float(x):15.9f}" for x in p))
-    out += ["END", "VELOCITY"]
-    for i, (nm, v) in enumerate(zip(names, vel)):
-        out.append(g96_label(i, nm) + "".join(f"{float(x):15.9f}" for x in v))
-    out += ["END", "BOX", "".join(f"{float(b):15.9f}" for b in box), "END"]
+    out += ["END"]
+    if vel is not None:        # vel=None: a frame without VELOCITY block (e.g. an energy-minimised start configuration)
+        out += ["VELOCITY"]
+        for i, (nm, v) in enumerate(zip(names, vel)):
+            out.append(g96_label(i, nm) + "".join(f"{float(x):15.9f}" for x in v))
+        out += ["END"]
+    out += ["BOX", "".join(f"{float(b):15.9f}" for b in box), "END"]
     return "\n".join(out) + "\n"
 
 
@@ -450,7 +464,26 @@ def round_dec(x, d):
     return float(f"{x:.{d}f}")
 
 
-def make_frames(rng, kind, n, nframes, zero_vel_at=None):
+# Frames of the source path.  0, 1: moving; 2: at rest (zero velocities written out); from 3 on: frames
+# whose FILE lacks an optional entry of its format -- "vel": no VELOCITY block (g96) / no velocity
+# columns (xyz) / Atoms without momenta (ASE), all of which read as zero velocities; "box": no "Box:"
+# entry in the comment line of an xyz snapshot (TurtleMD then writes none either, CP2K takes the
+# ABC of its input template).  lammpstrj has no optional entries, a g96 frame needs its BOX block.
+MISSING = {
+    "turtle": {3: ("vel",), 4: ("vel", "box"), 5: ("box",)},
+    "cp2k": {3: ("vel",), 4: ("vel", "box"), 5: ("box",)},
+    "gromacs": {3: ("vel",)},
+    "ase": {3: ("vel",)},
+    "lammps": {},
+}
+CP2K_TEMPLATE_BOX = [30.0, 30.0, 30.0]       # ABC of CP2K_INP
+
+
+def shoot_indices(kind):
+    return [1, 2] + sorted(MISSING[kind])
+
+
+def make_frames(rng, kind, n, nframes, zero_vel_at=None, missing=None):
     mag = SRC_VEL_MAG[kind]
     frames = []
     for t in range(nframes):
@@ -460,8 +493,20 @@ def make_frames(rng, kind, n, nframes, zero_vel_at=None):
         else:
             vel = [[round_dec(rng.uniform(-1, 1) * mag, 9) for _ in range(3)] for _ in range(n)]
         box = [round_dec(rng.uniform(3.0, 9.0), 4) for _ in range(3)]
-        frames.append({"pos": pos, "vel": vel, "box": box})
+        miss = (missing or {}).get(t, ())
+        frames.append({"pos": pos, "vel": None if "vel" in miss else vel, "box": None if "box" in miss else box})
     return frames
+
+
+def as_read(kind, src, n):
+    """(velocities, box) the engine's own reader returns for a source frame."""
+    vel = src["vel"] if src["vel"] is not None else [[0.0, 0.0, 0.0] for _ in range(n)]
+    box = src["box"] if src["box"] is not None else (list(CP2K_TEMPLATE_BOX) if kind == "cp2k" else None)
+    return vel, box
+
+
+def missing_of(src):
+    return "+".join(k for k in ("vel", "box") if src[k] is None)
 
 
 def setups_for(kind, tier, rng):
@@ -587,7 +632,8 @@ def evaluate(kit, eng, setup, frames, cfgs, files, idx, zm, stream, ekins, ase_s
 
     eng.modify_velocities = wrapped
     try:
-        with (global_numpy_normal(grec) if (kind == "ase" and use_real is None) else contextlib.nullcontext()):
+        with (global_numpy_normal(grec) if (kind == "ase" and use_real is None) else contextlib.nullcontext()), \
+                contextlib.redirect_stdout(io.StringIO()):     # GROMACS print()s a note for a frame without velocities
             shpt, ridx, dek = prepare_shooting_point(path, PickIdx(idx), eng, {"tis_set": vs})
     finally:
         del eng.modify_velocities
@@ -638,12 +684,21 @@ def evaluate(kit, eng, setup, frames, cfgs, files, idx, zm, stream, ekins, ase_s
     src = frames[idx]
     obs["out"] = out
     exp_labels = kit.expected_labels(setup)
-    if out["labels"] != exp_labels or (kind == "gromacs" and out["vlabels"] != exp_labels):
+    # the written file carries one velocity entry per atom (whether or not the source frame had any)
+    if out["nvel"] != n:
+        errs.append(f"genvel.{eng.ext} holds {out['nvel']} velocity entries for {n} atoms "
+                    f"(source frame {'without' if src['vel'] is None else 'with'} velocities): the regenerated velocities "
+                    f"are not in the file, the missing ones read back as zero")
+    if out["labels"] != exp_labels:
         errs.append(f"atom identities changed: {out['labels']} != {exp_labels}")
+    elif kind == "gromacs" and out["nvel"] == n and out["vlabels"] != exp_labels:
+        errs.append(f"atom identities changed in the VELOCITY block: {out['vlabels']} != {exp_labels}")
     if [[fr(x) for x in r] for r in out["pos"]] != [[fr(x) for x in r] for r in src["pos"]]:
         errs.append(f"positions changed: {out['pos']} != {src['pos']}")
-    if [fr(x) for x in out["box"]] != [fr(x) for x in src["box"]]:
-        errs.append(f"box changed: {out['box']} != {src['box']}")
+    src_vel, src_box = as_read(kind, src, n)
+    if (out["box"] is None) != (src_box is None) or [fr(x) for x in out["box"] or []] != [fr(x) for x in src_box or []]:
+        errs.append(f"box changed: {out['box']} != {src_box}")
+
     if kind == "lammps" and [b[0] for b in out["boxraw"]] != [0.0, 0.0, 0.0]:
         errs.append("box origin changed")
     if kind == "ase" and (out["pbc"] != [True, True, True] or
@@ -684,7 +739,7 @@ def evaluate(kit, eng, setup, frames, cfgs, files, idx, zm, stream, ekins, ase_s
         kin_old = None if ekins[idx] is None else fr(ekins[idx])
         inf_expected = kin_old is None
     else:
-        vo = [[fr(x) for x in r] for r in src["vel"]]
+        vo = [[fr(x) for x in r] for r in src_vel]       # zero when the source frame has no velocities
         kin_old = sum(M[i] * vo[i][j] ** 2 for i in range(n) for j in range(3)) / 2
         inf_expected = kin_old == 0
     obs["kin_old"] = kin_old
@@ -752,13 +807,24 @@ def request_for(kind, setup, obs, frames, idx, zm, stream, ekin, ase_fixed):
     n = len(setup["names"])
     zmq = "N" if zm is None else str(int(zm))
     ids = ",".join(str(i + 1) for i in range(n))
-    common_tail = [qlist(fr(m) for m in obs["mass"]), qcols([[fr(x) for x in r] for r in src["pos"]]),
-                   qcols([[fr(x) for x in r] for r in src["vel"]]), qlist(fr(x) for x in src["box"]), ids,
-                   qlist(fr(s) for s in obs["sig"]), qlist(stream)]
+    src_vel, src_box = as_read(kind, src, n)
+    tail = [ids, qlist(fr(s) for s in obs["sig"]), qlist(stream)]
+    mass, pos = qlist(fr(m) for m in obs["mass"]), qcols([[fr(x) for x in r] for r in src["pos"]])
     if kind == "ase":
-        return " ".join(["ase", str(int(ase_fixed)), zmq] + common_tail)
+        return " ".join(["ase", str(int(ase_fixed)), zmq, mass, pos, qcols([[fr(x) for x in r] for r in src_vel]),
+                         qlist(fr(x) for x in src_box)] + tail)
     ek = "N" if ekin is None else qs(fr(ekin))
-    return " ".join(["std", kind, zmq, ek] + common_tail)
+    if kind == "gromacs" or src["vel"] is None or src["box"] is None:
+        # file-level model (VelM.modify_file): the optional entries of the source FILE are options,
+        # the reader's defaults (zero velocities; CP2K: template box) are the model's, and the number
+        # of velocity lines written follows write_gromos96_file's "one per entry of txt['VELOCITY']"
+        # with the special case for a frame without VELOCITY block switched on (as in /repo)
+        velo = "N" if src["vel"] is None else qcols([[fr(x) for x in r] for r in src["vel"]])
+        boxo = "N" if src["box"] is None else qlist(fr(x) for x in src["box"])
+        dflt = qlist(fr(x) for x in CP2K_TEMPLATE_BOX) if kind == "cp2k" else "-"
+        return " ".join(["file", kind, "1", zmq, ek, dflt, mass, pos, velo, boxo] + tail)
+    return " ".join(["std", kind, zmq, ek, mass, pos, qcols([[fr(x) for x in r] for r in src_vel]),
+                     qlist(fr(x) for x in src_box)] + tail)
 
 
 def compare_model(kind, obs, ans, stream_len):
@@ -773,7 +839,9 @@ def compare_model(kind, obs, ans, stream_len):
     vf = obs["out"]["vel"]
     n = len(vf)
     if len(cols) != 3 or any(len(c) != n for c in cols):
-        return [f"model velocity shape {len(cols)}x{[len(c) for c in cols]}"]
+        return [f"model velocity shape {len(cols)}x{[len(c) for c in cols]} (implementation wrote {obs['out'].get('nvel')} velocity entries for {n} atoms)"]
+    if obs["out"].get("nvel", n) != n:
+        return [f"velocity entries written: impl {obs['out'].get('nvel')} model {n}"]
     for i in range(n):
         for j in range(3):
             d = abs(fr(vf[i][j]) - cols[j][i])
@@ -799,8 +867,8 @@ def compare_model(kind, obs, ans, stream_len):
         for j in range(3):
             if fr(obs["out"]["pos"][i][j]) != pc[j][i]:
                 bad.append(f"position ({i},{j}) differs from the model's (= input)")
-    if [fr(x) for x in obs["out"]["box"]] != [common.parse_q(x) for x in mbox.split(",")]:
-        bad.append("box differs from the model's (= input)")
+    if [fr(x) for x in obs["out"]["box"] or []] != ([] if mbox == "-" else [common.parse_q(x) for x in mbox.split(",")]):
+        bad.append("box differs from the model's (= input; CP2K without 'Box:': the template's; TurtleMD without: none)")
     return bad[:4]
 
 
@@ -889,14 +957,16 @@ def _run(ctx, runner, root):
             if kind != "turtle":
                 const_reqs.append(f"kb {kind} 0/1")
                 const_meta.append(("kb", kind, setup, eng.kb))
-            nframes = 4
-            frames = make_frames(rng, kind, n, nframes, zero_vel_at=2)
+            shoot = shoot_indices(kind)
+            nframes = max(4, shoot[-1] + 2)        # the first and the last frame of a path are never shot from
+            frames = make_frames(rng, kind, n, nframes, zero_vel_at=2, missing=MISSING[kind])
             cfgs, files = kit.write_source(setup, frames)
-            ekins = [None, 0.0, 2.5, round_dec(rng.uniform(0.1, 9.0), 3)]
+            ekins = ([None, 0.0, 2.5, round_dec(rng.uniform(0.1, 9.0), 3)] + [1.25, None, 0.75])[:nframes]
             pats = z_patterns(rng, n, tier, full=(kind, n) not in full_done)
             full_done.add((kind, n))
             for pi, stream in enumerate(pats):
-                idx = 1 + (pi % 2)          # 1: moving frame, 2: frame at rest (kin_old == 0)
+                # 1: moving frame, 2: frame at rest (kin_old == 0), 3..: frames whose file has no velocities / no box entry
+                idx = shoot[pi % len(shoot)]
                 if kind == "gromacs":
                     ekins = ekins[1:] + ekins[:1]
                 per_zm = {}
@@ -914,7 +984,8 @@ def _run(ctx, runner, root):
                     reqs.append(req)
                     metas.append((kind, obs, errs, desc, len(stream)))
                     ctx.dist(f"{kind}/n={n}/zm={zm}")
-                    ctx.dist("kin_old=0" if idx == 2 and kind != "gromacs" else "kin_old>0" if kind != "gromacs" else f"gromacs ekin={ekins[idx]}")
+                    ctx.dist(f"gromacs ekin={ekins[idx]}" if kind == "gromacs" else "kin_old=0" if (frames[idx]["vel"] is None or idx == 2) else "kin_old>0")
+                    ctx.dist(f"{kind}/source file: " + ("complete" if not missing_of(frames[idx]) else "no " + missing_of(frames[idx])))
                 # same draws -> same output (second run on the same inputs)
                 if pi % 7 == 0 and True in per_zm:
                     obs2, _ = evaluate(kit, eng, setup, frames, cfgs, files, idx, True, stream, ekins, ase_src)
@@ -995,7 +1066,7 @@ def _run(ctx, runner, root):
     ctx.cov["rule"] = (
         f"engines {KINDS} x (temperature, masses, atom count 1..{4 if tier == 'quick' else 7}) set-ups built through the real constructors; per set-up: "
         f"all 27 streams over {[str(a) for a in ALPHA]} for one atom / {'all 729 (first temperature of each engine; a sample of 80 for the other temperatures)' if tier == 'thorough' else 'a sample of the 729'} for two atoms / sampled for more, plus dyadic random streams, "
-        f"each x zero_momentum in (absent, False, True), shooting alternately from a moving frame and a frame at rest (kin_old = 0), "
+        f"each x zero_momentum in (absent, False, True), shooting in turn from a moving frame, a frame at rest (kin_old = 0) and the frames whose file lacks the optional entries (no velocities; xyz: no 'Box:' entry, with and without velocities), "
         f"GROMACS with stored ekin in (None, 0.0, values); plus runs with a real numpy Generator per set-up (seeded) checking exact consumption npart*3 in row-major order. "
         f"A case is distinct by its model request line (engine, masses, source frame, sigma, stream, setting); all are non-trivial (velocities are regenerated in each).")
     ctx.cov["correspondence"] = {"compared": len(reqs) if runner is not None else 0, "disagreements": corr_fail, "constants_compared": len(const_reqs), "constants_disagree": const_bad,
@@ -1036,7 +1107,7 @@ def real_case(ctx, kit, eng, setup, frames, cfgs, files, ekins, seed, ase_src, a
     kind = kit.kind
     n = len(setup["names"])
     zm = (None, False, True)[seed % 3]
-    idx = 1
+    idx = 1 if seed % 2 else shoot_indices(kind)[-1]     # a moving frame / the last special one (at rest, no velocities, no box entry)
     extra = 5
     desc = {"engine": kind, "setup": setup, "frames": frames, "idx": idx, "zero_momentum": zm, "real_generator_seed": seed, "ekins": list(ekins)}
     if kind == "ase" and ase_src != "engine.rgen":
